@@ -349,9 +349,78 @@ def run(cx, rep):
     rep.rule("C08.8", "renaming, introducing or inlining a generic wrapper does not change what a type parameter means (scope stacks are searched innermost-first; = C01.8)")
     from rules.c01 import scope_stack_rule
     scope_stack_rule(cx, rep, "C08.8")
+    rep.rule("C08.9", "a value merged from the existing entry of a map is stored whether or not the entry exists")
+    n89 = lost_update_rule(F, rep, "C08.9", lambda f: f.crate != WASM)
+    rep.floor("C08.9", "or_insert sites", n89, 1)
+    if cx.canary is not None:
+        hits = lost_update_rule(cx.canary, None, None, lambda f: True, collect=True)
+        rep.ob("C08.9", "control/canary-lost-update", any("lost_update" in h for h in hits) and not any("kept_update" in h or "first_wins" in h for h in hits),
+               "positive control: the canary crate's or_insert of a merged value must be reported, its insert / first-wins twins must not (reported: %s)" % hits, "canary/rs/src/lib.rs")
     rep.rule("C08.6", "binary merges of set-ordered members treat both operands alike")
     symmetric_merge_rule(cx, rep, "C08.6")
     # ---------------------------------------------------------------- C08.4
     rep.rule("C08.4", "digests (hash / hash256) read structure only and iterate keys in sorted order")
     from rules import ts_common
     ts_common.digest_structure_rules(cx, rep, "C08.4")
+
+
+
+def lost_update_rule(F, rep, rid, select, collect=False):
+    """`m.entry(k).or_insert(v)` stores v only when k is ABSENT.  When v was computed from the entry that is already
+    there (`match m.get(&k) { Some(old) => merge(old, new), None => new }`), the store is skipped in exactly the case
+    the merge was computed for, and the first writer wins: with members that arrive in set order, which declaration of
+    a property survives then depends on how the members are named.  Decided for every or_insert / or_insert_with:
+    its value does not derive (through local `let`s) from a lookup in the same map."""
+    hits = []
+    n = 0
+    for g in sorted(F.hir):
+        f = F.fns.get(g)
+        if f is None or not select(f):
+            continue
+        tree = F.hir[g]
+        lets = {}
+        for x in walk(tree["body"]):
+            if x["k"] == "LetStmt" and x.get("init") is not None and x["pat"].get("k") == "P.Binding":
+                lets[x["pat"]["lid"]] = x["init"]
+
+        def root(e):
+            while e["k"] in ("AddrOf", "Unary", "DropTemps", "Field", "MethodCall") and (e.get("e") is not None or e.get("recv") is not None):
+                if e["k"] == "MethodCall":
+                    if e["method"] not in ("borrow_mut", "borrow", "as_mut", "as_ref", "deref", "deref_mut"):
+                        return None
+                    e = e["recv"]
+                else:
+                    e = e["e"]
+            return (e.get("lid"),) if e["k"] == "Path" and e.get("res") == "local" else None
+
+        def looks_up(e, m, depth=0, seen=None):
+            seen = seen if seen is not None else set()
+            for y in walk(e):
+                if y["k"] == "MethodCall" and y["method"] in ("get", "get_mut", "contains_key", "remove", "get_key_value") and root(y["recv"]) == m:
+                    return True
+                if y["k"] == "Path" and y.get("lid") in lets and y["lid"] not in seen and depth < 4:
+                    seen.add(y["lid"])
+                    if looks_up(lets[y["lid"]], m, depth + 1, seen):
+                        return True
+            return False
+        for x in walk(tree["body"]):
+            if x["k"] != "MethodCall" or x["method"] not in ("or_insert", "or_insert_with") or not x["args"]:
+                continue
+            ent = x["recv"]
+            while ent["k"] == "MethodCall" and ent["method"] != "entry":
+                ent = ent["recv"]
+            if ent["k"] != "MethodCall" or ent["method"] != "entry":
+                continue
+            m = root(ent["recv"])
+            if m is None:
+                continue
+            n += 1
+            bad = looks_up(x["args"][0], m)
+            if collect:
+                if bad:
+                    hits.append(g)
+                continue
+            rep.ob(rid, "%s/or_insert@%d" % (g.rsplit("::", 1)[-1], n), not bad,
+                   "%s stores with entry(..).or_insert(v) a value v that was computed from the map's existing entry: when the key is present - the only case in which the merge differs from the new value - nothing is stored, so the first declaration wins instead of the merged one" % g,
+                   "%s:%s" % (f.file, x["line"]), sample={"fn": g, "value_derives_from_lookup_in_same_map": bad})
+    return hits if collect else n
